@@ -418,6 +418,7 @@ def main(c):
         elif bad and (cs["id"] in prec_ids or cs["id"] in f11_ids) and ((o[0], o[1], o[2], o[4]) != (m[0], m[1], m[2], m[4]) or not same_ret):
             report(c, "model", "model-variant:%s" % cs["id"], "the model variant describing the known defect does not reproduce the observation: %s observed %s model %s" % (
                 describe(p, cs), rep["observed"], mo[2 * i]), rep)
+    c.log("comparison done")
     if nanskip:
         c.notes.append("%d cases with a NaN argument are outside the statement (comparisons are false: NaN passes every bound): not compared" % nanskip)
     for g, n in _groups.items():
